@@ -213,6 +213,16 @@ func (u *Upstream) waitToSendAllDataPointsAndReceiveAllAck(ctx context.Context) 
 		return errors.Errorf("failed to flush chunk: %w", err)
 	}
 
+	// wake the wait loop below when the close timeout or the caller's context ends:
+	// nobody else signals the condition variable if the acknowledgements never arrive
+	wake := func() {
+		u.receivedAck.L.Lock()
+		u.receivedAck.Broadcast()
+		u.receivedAck.L.Unlock()
+	}
+	defer context.AfterFunc(parentCtx, wake)()
+	defer context.AfterFunc(ctx, wake)()
+
 	u.receivedAck.L.Lock()
 	var err error
 	var remaining map[uint32]DataPointGroups
